@@ -104,6 +104,15 @@ variable {α : Type} [Zero α] [Add α] [Mul α] [Conj α]
 def purebReduce (dimB L : Nat) (table : Nat → List (Nat × Nat × α)) (v : Nat → α) : Nat → Nat → α :=
   assembleAB dimB table (purebCoeff L v)
 
+/-- the expectation branch of `PureBosonicExt.forward` (`pureb.py:55-63,75`): `set_expectation_op` stores `op.T.reshape(-1)`, the loss is
+`dot(dm_torch.view(-1), expect_op_T_vec)` (its real part): `Σ_{x,y} ρ[x,y]·op[y,x]` -/
+def expectLoss (N : Nat) (op ρ : Nat → Nat → α) : α := sumRange N fun x => sumRange N fun y => ρ x y * op y x
+
+/-- the table `PureBosonicExt.__init__` stores (`pureb.py:31-34`): the index lists of `bijTable` with the values `w` (the casts to
+`int64` / `complex128` do not change them; the exact tie substitutes integer values position by position) -/
+def tableWith {β : Type} (tab : List (Nat × Nat × β)) (w : List α) : List (Nat × Nat × α) :=
+  (tab.zip w).map fun p => (p.1.1, p.1.2.1, p.2)
+
 /-- `get_partial_trace_ABk_to_AB_index(…, return_tensor=True)` (`dicke.py:146-152`): `Brsab[r,s,i,j] = value` for the triples of
 entry `r·dim+s` (at most one triple per `(i,j)`), zero elsewhere -/
 def tensorOfTable (dimB : Nat) (table : Nat → List (Nat × Nat × α)) (r s i j : Nat) : α :=
